@@ -9,15 +9,19 @@ from . import common, search, search_oracles as so
 from .common import Check
 
 GEN_TARGETS = ['search', 'geoassignments', 'heapdict']
+GEN_TARGETS_EXH = GEN_TARGETS + ['exhaustive']     # properties whose theorems are also stated on the translated exhaustive_search
 
 TRUSTED_BASE = [
     'Coq 8.16.1 kernel and vm_compute (no native_compute); primitive floats (PrimFloat) only in the executable '
     'instance FloatOps used by the correspondence, never in a theorem',
     'axioms: none (Print Assumptions: closed under the global context for every property theorem)',
-    'translator translate/py2v.py (targets search, geoassignments, heapdict) and the bridge lemmas of proofs/SearchBridge.v',
+    'translator translate/py2v.py (targets search, geoassignments, heapdict; exhaustive for C01-C04, C09, C11) and the bridge lemmas of '
+    'proofs/SearchBridge.v, proofs/ExhaustiveBridge.v; reading of objects by the exhaustive target: a TBRMMDiagnostics object is the '
+    'pair of groups whose series it holds, copy.deepcopy snapshots that value, a TBRMMDesign is (score, groups, groups of its diagnostics)',
     'modelled, not verified: numpy/scipy/pandas kernels (aggregate_geo_share, aggregate_time_series, corrcoef, '
     'required impact, A/A, Brownian-bridge, Durbin-Watson tests) enter the model as oracles over index sets; '
-    'exhaustive_search / greedy_search / geos_within_constraints are hand-modelled (model/Search.v) and tied by '
+    'exhaustive_search is translated on every run and proved equal to the hand-written model (proofs/ExhaustiveBridge.v); '
+    'greedy_search / geos_within_constraints / search_results are hand-modelled (model/Search.v); all are tied by '
     'executed correspondence; heapq contract; itertools.combinations order; CPython iteration order of small-int sets '
     '(ascending) -- relevant only when scores tie',
     'harness: kernel tables are computed with fresh TBRMMDiagnostics/TBRMMScore objects; floats in score tuples are '
@@ -82,9 +86,9 @@ def describe(case, out):
 
 def run_family(prop, tier, propfile, components, oracle, n_quick, n_thorough, rule,
                want=('tables', 'components', 'exhaustive', 'greedy'), degenerate_every=5, extra_cases=None,
-               nontrivial=None, trusted_extra=(), assumptions=(), post=None):
+               nontrivial=None, trusted_extra=(), assumptions=(), post=None, gen_targets=None):
   ck = Check(prop, tier)
-  ck.prove(propfile, gen_targets=GEN_TARGETS, extra=['harness/RunSearch.vo'])
+  ck.prove(propfile, gen_targets=gen_targets or GEN_TARGETS, extra=['harness/RunSearch.vo'])
   n = n_quick if tier == 'quick' else n_thorough
   base = ck.seed * 100003 + int(prop[1:]) * 1009
   jobs = [(base + i, tier, degenerate_every and i % degenerate_every == 0, want, None) for i in range(n)]
@@ -111,6 +115,8 @@ def run_family(prop, tier, propfile, components, oracle, n_quick, n_thorough, ru
     for k in ('treatment_geos_range', 'control_geos_range', 'geo_ratio_tolerance', 'volume_ratio_tolerance',
               'treatment_share_range', 'budget_range', 'n_geos_max'):
       dist['constraint:' + k] += k in case.get('par_final', {})
+    dist['history:%s' % (case.get('history') or 'fresh-object')] += 1
+    dist['zero-sum-geo'] += 'zero_sum_geo' in case
     if isinstance(gi, list) and 'pairs' in out:
       dist['ties'] += search.has_ties(out)
     nt = nontrivial(case, out) if nontrivial else (isinstance(gi, list) and len(gi) >= 2)
